@@ -28,6 +28,10 @@ def run(ck, ctx):
                      "answers an error while the commands before it have taken effect)")
     ck.assume("a variant classified read-only under *some* field condition is required to have a write-free handler "
               "(no correlation between pattern fields and handler branches)")
+    ck.rule("R17.8", "a reply borrowed from another handler is checked before anything is written: when a handler obtains a RespValue from a sibling "
+                     "handler (GETEX built on GET, SETNX on SET ..) and can return it, every write site it reaches after that call lies behind a test of "
+                     "the reply that excludes its Error variant - otherwise the sibling's WRONGTYPE/ERR is passed on after the option has been applied "
+                     "(GETEX list PERSIST answers WRONGTYPE and drops the TTL)")
     ck.rule("R17.7", "the shard router never has to undo: in ShardedActorState no function sends a shard a *mutating* command it built itself "
                      "(LPOP, RPUSH, SET ..: a Command variant outside is_read_only) and afterwards sends another command whose reply it can "
                      "return to the client - if the later step fails the earlier mutation has happened, and a compensating write does not restore "
@@ -44,6 +48,7 @@ def run(ck, ctx):
         _r175(ck, prog, cfg, writers)
         _r176(ck, prog, cfg)
         _r177(ck, prog, cfg)
+        _r178(ck, prog, cfg, writers)
 
 
 def read_only_variants(prog):
@@ -360,3 +365,41 @@ def _r177(ck, prog, cfg):
                 k += 1
     ck.check(n >= 3, "R17.7", "router-functions-scanned" + _tag(cfg), "only %d ShardedActorState functions with shard sends were found" % n, None,
              detail="%d functions of ShardedActorState send commands to shards; none builds a mutating command and sends again afterwards" % n)
+
+
+# ------------------------------------------------------------------------------------------------
+def _r178(ck, prog, cfg, writers):
+    from .facts import op_local
+    from .lib import edge_targets
+    meths = effects.executor_methods(prog)
+    ids = {m.id for m in meths if m.locals and m.locals[0] == "redis::resp::RespValue"}
+    adt = prog.adts.get("redis::resp::RespValue")
+    err_idx = [i for i, v in enumerate(adt["variants"]) if v["n"] == "Error"][0] if adt else None
+    n = 0
+    for f in meths:
+        for b, t in f.calls():
+            if callee(t) not in ids or callee(t) == f.id or "p" in t["dest"]:
+                continue
+            d = t["dest"]["l"]
+            flows = d == 0 or any(st["lhs"] == {"l": 0} and st["rv"]["k"] == "use" and op_local(st["rv"]["a"]) == d for _, _, st in f.stmts())
+            if not flows:
+                continue
+            n += 1
+            ws = [w for w in effects.write_sites(prog, f, writers) if w["b"] in f.reach([b]) and not str(w["what"]).startswith("evict_expired")]
+            bad = []
+            for w in ws:
+                safe = False
+                for sb in sorted(f.reachable_blocks()):
+                    si = switch_info(f, sb)
+                    if si and si["kind"] == "discr" and si["place"].get("l") == d and not si["place"].get("p") and f.dominates(sb, w["b"]) and err_idx is not None:
+                        et = edge_targets(f, sb, err_idx)
+                        if w["b"] != et and w["b"] not in f.reach([et], avoid=[sb]):
+                            safe = True
+                if not safe:
+                    bad.append(w)
+            ck.check(not bad, "R17.8", "%s:reply-of(%s)%s" % (f.short, callee(t).rsplit("::", 1)[-1], _tag(cfg)),
+                     "%s can return the reply of %s - possibly an error - after writing (%s) without having excluded the Error variant of that reply: "
+                     "the command answers an error and has changed the keyspace" % (f.short, callee(t).rsplit("::", 1)[-1],
+                                                                                   ", ".join("%s @%s" % (w["what"], w["ln"]) for w in bad[:3])),
+                     f.where(t["ln"]), detail="writes after the call are behind `reply is not Error`")
+    ck.ok("R17.8", "scan" + _tag(cfg), detail="%d borrowed replies among %d handlers" % (n, len(meths)))
